@@ -29,6 +29,7 @@ RULE = ('case = (level set, profile, constants, grid/layout, eta, solve method, 
         '(transitions); non-trivial = output not identically zero; distinct outcomes = distinct output byte patterns')
 
 ETAS = (0.01, -0.01, 0.3, -0.3, 5.0, -5.0)
+RADII = {'real': 1.0, 'fast_padded': 0.4, 'real_wide': 2.5}
 GRIDS = {'real': ([4, 5, 13, 7], 'real'), 'fast_padded': ([4, 5, 13, 7], ['fast', 4, True, False]), 'real_wide': ([3, 5, 8, 5], 'real'),
          'fast_unpadded': ([5, 6, 16, 8], ['fast', 1, False, True])}
 SOLVE = ('split', 'stacked', 'blockwise')
@@ -100,7 +101,7 @@ def _pe_unit(unit, rec):
     shape = tuple(shape); impl = impl if isinstance(impl, str) else tuple(impl)
     M, L = shape[0], shape[1]
     rows = 2 * M - 1
-    radius = 1.0 if gname != 'real_wide' else 2.5
+    radius = RADII.get(gname, 1.0)       # the padded fast layout runs on a sphere of radius 0.4 so that the quick tier covers radius != 1
     coords = harness.make_coords(shape, b, impl=impl, radius=radius)
     lam = -np.arange(L) * (np.arange(L) + 1) / radius ** 2
     mask = sphere.real_mask(M, L)
